@@ -175,6 +175,30 @@ func TestC18_Funcs(t *testing.T) {
 	c := collector("C18", "funcs")
 	check(t, func(t *rapid.T) {
 		e1, doc, name := genCall(t)
+		if rapid.IntRange(0, 11).Draw(t, "extreme") == 0 {
+			// arithmetic and numeric functions at the edges of the decimal
+			// range: the result must be a JSON number or an error, never an
+			// infinity or NaN value
+			lim := func(label string) ast.Expr {
+				return ast.Lit(jv.VNumText(gen.Pick(t, label, []string{"9e6144", "9.999999999999999999999999999999999e6144", "-9e6144", "1e6000", "1e-6000", "1e-6176", "1e-6143", "0.5", "2", "10", "-3", "1e-200", "1e200", "0", "1e6144"})))
+			}
+			switch rapid.IntRange(0, 2).Draw(t, "extremekind") {
+			case 0:
+				op := gen.Pick(t, "extremeop", []string{"+", "-", "*", "/", "//", "%"})
+				e1, name = ast.Paren(ast.Bin(op, lim("l"), lim("r"))), "arith"+op
+			case 1:
+				fn := gen.Pick(t, "extremefn", []string{"sum", "avg", "max", "min"})
+				e1, name = ast.Call(fn, ast.A(&ast.Chain{Head: ast.Head{Kind: ast.HMultiList, Items: []ast.Expr{lim("l"), lim("r"), lim("m")}}})), fn
+			default:
+				fn := gen.Pick(t, "extremefn1", []string{"abs", "ceil", "floor", "to_number"})
+				var arg ast.Expr = ast.Paren(ast.Bin("*", lim("l"), lim("r")))
+				if fn == "to_number" {
+					arg = ast.RawS(gen.Pick(t, "tonum", []string{"1e6145", "-1e6145", "1e99999", "9.99e6144", "1e-6177", "1e-99999", "Infinity", "-Infinity", "NaN", "inf", "+Inf", "nan", "sNaN", "1e+6144"}))
+				}
+				e1, name = ast.Call(fn, ast.A(arg)), fn
+			}
+			doc = jv.VObj(nil)
+		}
 		t2 := gen.Pick(t, "consumer", c18Consumers)
 		pr := ast.Parse(t2)
 		if pr.Verdict != ast.In {
